@@ -4,7 +4,7 @@ import re
 
 from ..pycfg import CFG, walk_no_nested
 from ..pyflow import ReachingDefs
-from ..source import AnalysisError, find_function, first_line, src, functions
+from ..source import AnalysisError, find_function, find_class, first_line, src, functions
 
 SM = "nemoguardrails/colang/v2_x/runtime/statemachine.py"
 EMIT = "_generate_action_event_from_actionable_element"
@@ -18,6 +18,8 @@ def run(ctx):
                    "c: every other head gets exactly one of co-win / caught / abort on every path",
                    "d: descending sort by score list and winner from the tie prefix", "e: only heads of active flows with ACTIVE status enter resolution"]
     ctx.not_decided = ["the ordering over score vectors for all values", "fairness of the tie-break"]
+    identity_predicate(ctx)
+    loop_sources(ctx)
     t = ctx.tree.ast(SM)
     fn = find_function(t, "_resolve_action_conflicts")
     if fn is None:
@@ -247,3 +249,168 @@ def run(ctx):
         ctx.check("C05.e.filter", SM, "run_to_completion", first_line(c.ast), ok,
                   "the heads handed to conflict resolution are (on every path) the list filtered by is_active_flow(...) and status == ACTIVE: a flow that did not match or has ended is untouched",
                   line=c.line)
+
+
+FLOWS = "nemoguardrails/colang/v2_x/runtime/flows.py"
+FRESH = {"new_uuid", "new_readable_uuid"}
+
+
+def identity_predicate(ctx):
+    """`identical action` is decided by Event.is_equal: it must compare the name and the WHOLE argument sets of both sides."""
+    t = ctx.tree.ast(FLOWS)
+    fn = find_function(t, "is_equal", "Event")
+    if fn is None:
+        raise AnalysisError("Event.is_equal not found", anchor=FLOWS + "::Event.is_equal")
+    body = src(fn)
+    flat = re.sub(r"\s", "", body)
+    whole = ("self.arguments==other.arguments" in flat or "other.arguments==self.arguments" in flat)
+    name = ("self.name==other.name" in flat or "other.name==self.name" in flat or "self.name!=other.name" in flat or "other.name!=self.name" in flat)
+    loops_self = [l for l in ast.walk(fn) if isinstance(l, ast.For) and "self.arguments" in src(l.iter)]
+    loops_other = [l for l in ast.walk(fn) if isinstance(l, ast.For) and "other.arguments" in src(l.iter)]
+    sizes = any(x in flat for x in ("len(self.arguments)==len(other.arguments)", "len(other.arguments)==len(self.arguments)", "len(self.arguments)!=len(other.arguments)",
+                                    "len(other.arguments)!=len(self.arguments)", "self.arguments.keys()==other.arguments.keys()", "other.arguments.keys()==self.arguments.keys()",
+                                    "self.arguments.keys()!=other.arguments.keys()", "set(self.arguments)==set(other.arguments)", "set(self.arguments)!=set(other.arguments)"))
+    if whole:
+        two_sided, how = True, "whole-dict equality of the arguments"
+    elif loops_self and (loops_other or sizes):
+        two_sided, how = True, "argument-wise comparison covering both sides"
+    elif loops_other and (loops_self or sizes):
+        two_sided, how = True, "argument-wise comparison covering both sides"
+    elif loops_self or loops_other:
+        two_sided, how = False, "only the arguments of %s are inspected" % ("self" if loops_self else "other")
+    else:
+        raise AnalysisError("Event.is_equal: comparison form not recognised", anchor=FLOWS + "::Event.is_equal")
+    ctx.check("C05.c.identity", FLOWS, "Event.is_equal", "arguments compared on both sides", two_sided,
+              "identical-action test: %s" % how if two_sided else
+              "identical-action test is one-sided (%s): a competitor whose arguments are a superset/subset of the winner's counts as identical, proceeds, and its different action is silently dropped" % how,
+              line=fn.lineno)
+    ctx.check("C05.c.identity", FLOWS, "Event.is_equal", "name compared", name, "the event/action name is part of the identity", line=fn.lineno)
+    # only return statements that depend on the comparison may say True
+    lit_true = [r for r in ast.walk(fn) if isinstance(r, ast.Return) and isinstance(r.value, ast.Constant) and r.value.value is True]
+    ok = all(any(isinstance(p, (ast.For, ast.If)) or True for p in [r]) for r in lit_true)
+    # the resolver uses this predicate (not a weaker one) for co-winning
+    sm = ctx.tree.ast(SM)
+    rf = find_function(sm, "_resolve_action_conflicts")
+    uses = [c for c in ast.walk(rf) if isinstance(c, ast.Call) and isinstance(c.func, ast.Attribute) and c.func.attr == "is_equal"] if rf else []
+    ctx.check("C05.c.identity", SM, "_resolve_action_conflicts", "co-win uses the identity predicate", len(uses) >= 1,
+              "a competing head co-wins only under `winning_event.is_equal(competing_event)` (%d use)" % len(uses), line=(uses[0].lineno if uses else 1))
+
+
+def loop_sources(ctx):
+    """Heads compete only inside their interaction loop, identified by FlowState.loop_id.  Every value that can reach a loop_id must be (1) a fresh
+    id, (2) the instance's OWN declared named loop with the literal "NEW" excluded, or (3) the run-time loop id of another live instance (parent)."""
+    sm = ctx.tree.ast(SM)
+    sites = []
+    for fn in functions(sm):
+        for n in walk_no_nested(fn):
+            if isinstance(n, ast.Assign) and isinstance(n.targets[0], ast.Attribute) and n.targets[0].attr == "loop_id":
+                sites.append((fn, n, n.targets[0].value, n.value))
+            if isinstance(n, ast.Call) and src(n.func) == "FlowState":
+                for k in n.keywords:
+                    if k.arg == "loop_id":
+                        sites.append((fn, n, None, k.value))
+    ctx.floor("C05.a.loop-source", SM, "stores into FlowState.loop_id", len(sites), 2)
+
+    def bindings(fn, name):
+        out = []
+        for n in walk_no_nested(fn):
+            if isinstance(n, ast.Assign) and any(isinstance(t, ast.Name) and t.id == name for t in n.targets):
+                out.append(n)
+            if isinstance(n, ast.AnnAssign) and isinstance(n.target, ast.Name) and n.target.id == name and n.value is not None:
+                out.append(n)
+        return out
+
+    def kind_of_base(fn, b, own_flow_exprs):
+        """classify the object whose .loop_id is read: ('instance',) | ('config', own?)"""
+        txt = re.sub(r"\s", "", src(b))
+        if re.match(r"state\.flow_states\[", txt):
+            return ("instance", txt)
+        m = re.match(r"state\.flow_configs\[(.*)\]$", txt)
+        if m:
+            return ("config", m.group(1) in own_flow_exprs)
+        if isinstance(b, ast.Name):
+            params = {a.arg: a for a in fn.args.args}
+            if b.id in params:
+                ann = src(params[b.id].annotation) if params[b.id].annotation is not None else ""
+                if "FlowConfig" in ann:
+                    return ("config", b.id in own_flow_exprs)
+                if "FlowState" in ann:
+                    return ("instance", b.id)
+                return ("unknown", b.id)
+            ks = [kind_of_base(fn, d.value, own_flow_exprs) for d in bindings(fn, b.id)]
+            if ks and all(k[0] == "instance" for k in ks):
+                return ("instance", b.id)
+            if ks and all(k[0] == "config" for k in ks):
+                return ("config", all(k[1] for k in ks))
+        return ("unknown", txt)
+
+    def classify(fn, e, own, seen=()):
+        """-> set of source kinds"""
+        if isinstance(e, ast.Constant) and e.value is None:
+            return {"none"}
+        if isinstance(e, ast.Call) and src(e.func) in FRESH:
+            return {"fresh"}
+        if isinstance(e, ast.BoolOp):
+            out = set()
+            for v in e.values:
+                out |= classify(fn, v, own, seen)
+            return out
+        if isinstance(e, ast.IfExp):
+            return classify(fn, e.body, own, seen) | classify(fn, e.orelse, own, seen)
+        if isinstance(e, ast.Name):
+            if e.id in seen:
+                return set()
+            ds = bindings(fn, e.id)
+            if not ds:
+                return {"other:%s" % e.id}
+            out = set()
+            for d in ds:
+                out |= classify(fn, d.value, own, seen + (e.id,))
+            return out
+        if isinstance(e, ast.Attribute) and e.attr == "loop_id":
+            k = kind_of_base(fn, e.value, own)
+            if k[0] == "instance":
+                return {"instance"}
+            if k[0] == "config":
+                return {"config-own" if k[1] else "config-other"}
+            return {"other:%s" % src(e)}
+        return {"other:%s" % src(e)[:40]}
+
+    for fn, n, target_base, value in sites:
+        # which expressions denote the flow id of the instance that receives the loop id
+        own = set()
+        if target_base is not None:
+            tb = re.sub(r"\s", "", src(target_base))
+            own.add(tb + ".flow_id")
+            for d in bindings(fn, tb) if isinstance(target_base, ast.Name) else []:
+                pass
+            # main: `main_flow_config = state.flow_configs["main"]` and the target is created from it
+            for d in [x for x in walk_no_nested(fn) if isinstance(x, ast.Assign) and isinstance(x.targets[0], ast.Name)]:
+                if tb in src(d.targets[0]) or True:
+                    pass
+            if fn.name == "initialize_state":
+                own |= {'"main"', "'main'", "main_flow_config"}
+        else:
+            # constructor: the config that also provides flow_id=<cfg>.id
+            for k in n.keywords:
+                if k.arg == "flow_id" and isinstance(k.value, ast.Attribute) and k.value.attr == "id":
+                    own.add(src(k.value.value))
+        # names bound to own config
+        for d in [x for x in walk_no_nested(fn) if isinstance(x, ast.Assign) and isinstance(x.targets[0], ast.Name)]:
+            m = re.match(r"state\.flow_configs\[(.*)\]$", re.sub(r"\s", "", src(d.value)))
+            if m and m.group(1) in own:
+                own.add(d.targets[0].id)
+        kinds = classify(fn, value, own)
+        bad = sorted(k for k in kinds if k.startswith("other") or k == "config-other")
+        ok = not bad
+        why = "sources: %s" % sorted(kinds)
+        if ok and "config-own" in kinds and fn.name != "initialize_state":
+            # the literal "NEW" must not be stored as a loop id: NEW-exclusion on the path
+            text = re.sub(r"\s", "", src(fn))
+            excl = bool(re.search(r"loop_type==InteractionLoopType\.NAMED", text)) or bool(re.search(r"loop_id==[\"']NEW[\"']", text))
+            ok = excl
+            why += "; the literal \"NEW\" is %s before the declared id is used" % ("excluded" if excl else "NOT excluded")
+        ctx.check("C05.a.loop-source", SM, fn.name, first_line(n, 70) if target_base is not None else "FlowState(loop_id=%s)" % src(value), ok,
+                  ("the loop id is a fresh id, the instance's own declared loop, or a live instance's run-time loop id (%s)" % why) if ok else
+                  ("the loop id can come from %s: a DECLARED loop id of another flow (possibly the literal \"NEW\") puts unrelated instances into one interaction loop, where their actions compete (%s)"
+                   % (bad or "an unguarded declared id", why)), line=n.lineno)
